@@ -178,3 +178,7 @@ end LP.Props.C01
 #print axioms LP.Props.C01.claimPaymentCommon_keeps_post
 #print axioms LP.Props.C01.handover
 #print axioms LP.Props.C01.after_all_claims_nothing_left
+
+#print axioms LP.Props.C01.send_bal
+#print axioms LP.Props.C01.sub_same
+#print axioms LP.Props.C01.sub_other
